@@ -254,9 +254,9 @@ def xff_elements(chk, prog, cfg, rule, fn="humphrey::http::address::Address::fro
                "(e.g. `::1` split at its last ':') are silently dropped from origin/proxies, so a blacklisted forwarded-for address is not seen",
                where=c.where(blk), cfg=cfg)
     # nothing but the parse decides which elements are kept
-    fm = [(blk, t) for blk, t in b.calls_to(r"Iterator::filter_map$|Iterator::filter$|Iterator::take$|Iterator::skip$|Iterator::take_while$|Iterator::skip_while$|Iterator::step_by$")]
+    fm = [(blk, t) for blk, t in b.calls_to(r"Iterator::filter_map$|Iterator::filter$|Iterator::take$|Iterator::skip$|Iterator::take_while$|Iterator::skip_while$|Iterator::step_by$|Iterator::map$|Iterator::flat_map$|Iterator::map_while$|Iterator::scan$")]
     keep = [t["callee"].split("::")[-1] for blk, t in fm]
-    chk.ob(rule, fn, "elements are dropped only when IpAddr::from_str rejects them (single filter_map over the split)", keep == ["filter_map"],
+    chk.ob(rule, fn, "elements are dropped only when IpAddr::from_str rejects them and recorded as parsed (single filter_map over the split, no re-mapping)", keep == ["filter_map"],
            f"adaptors on the element list: {keep}", cfg=cfg)
 
 
